@@ -3,3 +3,6 @@ pub mod coll;
 pub mod coll_api;
 pub mod plain;
 pub mod strings;
+pub mod strings_down8;
+pub mod strings_dyn;
+pub mod strings_up4;
